@@ -29,7 +29,7 @@ import (
 // function, so a case stays a pure function of its draws.
 func TestC02Big(t *testing.T) {
 	rapid.Check(t, func(t *rapid.T) {
-		kind := rapid.SampledFrom([]string{"cmap12", "cmap4", "cmap-many-subtables", "name", "post", "kern", "glyf", "hmtx",
+		kind := rapid.SampledFrom([]string{"cmap12", "cmap4", "cmap-many-subtables", "name", "post", "kern", "kern-overlap", "glyf", "hmtx",
 			"cff-glyphs", "cff-fdselect", "cff-strings", "container", "coverage", "classdef"}).Draw(t, "kind")
 		scale := rapid.SampledFrom([]int{1, 2, 4, 8, 16, 32, 64}).Draw(t, "scale")
 		fs := &bigFiller{s: rapid.Uint64().Draw(t, "fill")}
@@ -197,6 +197,15 @@ func buildBig(t *rapid.T, kind string, scale int, fs *bigFiller) (string, []byte
 			out = append(out, sub...)
 		}
 		return "kern.Read", out
+	case "kern-overlap":
+		// thousands of format 0 subtables whose pair counts reach far
+		// beyond their lengths, so that every subtable's pairs run over
+		// the subtables that follow (a reader that follows the counts does
+		// quadratic work)
+		nsub := min(1000*scale, 60000)
+		np := min(1000*scale+fs.intn(500), 65535)
+		length := 14 + 6*fs.intn(3)
+		return "kern.Read", overlappingKern(nsub, np, length)
 	case "glyf":
 		// thousands of small simple glyphs (and empty ones), long loca
 		n := min(4000*scale, 65535)
@@ -351,4 +360,26 @@ func bigTrueType(numGlyphs int, glyf, loca []byte) []byte {
 		glyf = []byte{}
 	}
 	return refsfnt.Assemble(0x00010000, map[string][]byte{"head": head, "maxp": maxp, "hhea": hhea, "hmtx": hmtx, "glyf": glyf, "loca": loca})
+}
+
+// overlappingKern is a kern table of s format 0 subtables of the given length
+// (14 + 6 x a few pairs) that claim k pairs each, followed by enough bytes for
+// the last of them.
+func overlappingKern(s, k, length int) []byte {
+	b := []byte{0, 0}
+	b = be16(b, s)
+	sub := func(pairs int) {
+		b = append(b, 0, 0)
+		b = be16(b, length)
+		b = append(b, 0, 1)
+		b = be16(b, pairs)
+		b = append(b, make([]byte, length-8)...)
+	}
+	for i := 0; i < s; i++ {
+		sub(k)
+	}
+	for len(b) < 4+length*s+6*k+14 {
+		sub(0)
+	}
+	return b
 }
